@@ -1,6 +1,6 @@
 SPECIFICATION Spec
 CONSTANTS
-  Dests = {"A"}
+  Dests = {"B"}
   Sizes = {200, 1000001}
   EventMax = 1000000
   BodyMax = 5000000
